@@ -6,19 +6,20 @@ Open Scope Z_scope.
 Lemma wrap64_small z : -9223372036854775808 <= z <= 9223372036854775807 -> wrap64 z = z.
 Proof. intros H. unfold wrap64. rewrite Z.mod_small by lia. lia. Qed.
 
-(** for a clock value that fits a Duration and a sane moves-to-go count *)
+(** for a clock value that fits a Duration and EVERY moves-to-go value (an int: negative, zero, up to
+    2^63 - 1): the divisor is never 0 (no panic) and the hard limit never exceeds the clock *)
 Theorem limits_hard_le_clock : forall white black moves c,
-  0 <= white <= 9223372036854775807 -> 0 <= black <= 9223372036854775807 -> 0 <= moves < 2147483648 ->
+  0 <= white <= 9223372036854775807 -> 0 <= black <= 9223372036854775807 ->
   let '(soft, hard) := limits white black moves c in
   let remaining := if c =? 1 then black else white in
   0 <= soft /\ soft <= hard /\ hard <= remaining.
 Proof.
-  intros white black moves c Hw Hb Hm. unfold limits.
+  intros white black moves c Hw Hb. unfold limits.
   set (remaining := if c =? 1 then black else white).
   assert (Hr : 0 <= remaining <= 9223372036854775807) by (unfold remaining; destruct (c =? 1); lia).
-  set (mv := if 0 <? moves then wrap64 (moves + 1) else 40).
+  set (mv := if 0 <? moves then Z.min moves max_moves_to_go + 1 else 40).
   assert (Hmv : 2 <= mv <= 2147483648).
-  { unfold mv. destruct (0 <? moves) eqn:E; [apply Z.ltb_lt in E; rewrite wrap64_small by lia; lia|lia]. }
+  { unfold mv, max_moves_to_go. destruct (0 <? moves) eqn:E; [apply Z.ltb_lt in E; lia|lia]. }
   rewrite (wrap64_small (2 * mv)) by lia.
   set (soft := Z.quot remaining (2 * mv)).
   assert (Hs : 0 <= soft /\ 2 * mv * soft <= remaining).
@@ -29,6 +30,19 @@ Proof.
   repeat split; lia.
 Qed.
 Print Assumptions limits_hard_le_clock.
+
+(** the divisor of the soft limit is at least 4 for every input: Limits cannot divide by zero *)
+Lemma limits_divisor_pos : forall moves,
+  4 <= wrap64 (2 * (if 0 <? moves then Z.min moves max_moves_to_go + 1 else 40)) <= 2097154.
+Proof.
+  intros moves. unfold max_moves_to_go. destruct (0 <? moves) eqn:E.
+  - apply Z.ltb_lt in E. rewrite wrap64_small by lia. lia.
+  - rewrite wrap64_small by lia. lia.
+Qed.
+
+(** before the cap (the code as found): moves-to-go 2^63 - 1 makes the divisor 2 * wrap64 (2^63) = 0 *)
+Example limits_legacy_divisor_zero : wrap64 (2 * wrap64 (9223372036854775807 + 1)) = 0.
+Proof. reflexivity. Qed.
 
 (** the bound on moves matters only through overflow; with a negative clock the hard limit is 0 or negative
     and can exceed it (outside the property: "time left on the clock") *)
